@@ -874,8 +874,8 @@ FOLLOW = {
     "delete_config": ["call_eqv", "write_config"],
     "extract_subproc": ["inline", "call_eqv", "replace", "simplify"],
     "replace": ["inline", "call_eqv", "simplify", "replace"],
-    "cut_loop": ["join_loops", "shift_loop", "unroll_loop", "fuse", "simplify", "eliminate_dead_code"],
-    "shift_loop": ["simplify", "cut_loop", "join_loops", "fuse"],
+    "cut_loop": ["join_loops", "shift_loop", "unroll_loop", "fuse", "simplify", "eliminate_dead_code", "replace", "replace"],
+    "shift_loop": ["simplify", "cut_loop", "join_loops", "fuse", "replace", "replace"],
     "unroll_loop": ["simplify", "merge_writes", "reorder_stmts", "unroll_buffer", "inline_assign", "fold_into_reduce"],
     "specialize": ["eliminate_dead_code", "simplify", "lift_scope", "fuse"],
     "lift_scope": ["fission", "eliminate_dead_code", "specialize", "reorder_loops", "fuse"],
